@@ -286,6 +286,9 @@ let handle (line : string) : string =
   (match next t with
    | "LIM" -> lim := next_int t; Buffer.add_string b "OK"
    | "DROP" -> let _ = next t in Buffer.add_string b "OK"
+   | "DGLOBAL" ->
+       (* the library's process-wide default dictionary is no part of any dictionary the cases name: nothing changes *)
+       Buffer.add_string b "OK"
    | "DADD" ->
        let id = next t in
        let op = parse_dop t in
@@ -390,7 +393,7 @@ let handle (line : string) : string =
        let rs = parse_rscript t in
        let ws = parse_wscript t in
        let na = next_int t in
-       let answers = parse_list t (fun t -> match next t with
+       let answers = parse_list t (fun t -> match (match next t with "Z" -> let _ = next t in next t | s -> s) with
          | "F" -> None
          | "A" -> let dsa = get_dict (next t) in
                   let (start, ops) = parse_history t in
@@ -448,7 +451,11 @@ let handle (line : string) : string =
          let k = List.length (cst c).inq in
          for _ = 1 to k do ms := mstep !ms (MPeer (nat_of_int c, ReaderStep)) done in
        let apply_send e = (let c = curc () in ms := mstep !ms (MSend e); drain c) in
-       let apply_peer c e = (ms := mstep !ms (MPeer (nat_of_int c, e)); drain c) in
+       let held : (int * ev) list ref option ref = ref None in     (* H ... U: what the peer emits is delivered in one piece at U *)
+       let apply_peer_now c e = (ms := mstep !ms (MPeer (nat_of_int c, e)); drain c) in
+       let apply_peer c e = (match !held, e with
+                             | Some l, Peer _ -> l := (c, e) :: !l
+                             | _ -> apply_peer_now c e) in
        let wire () = (match !sending with
                       | Some (h, c, i, g, k, false) -> sending := Some (h, c, i, g, k, true); ms := mstep !ms (MPeer (nat_of_int c, WireOut h)); drain c
                       | _ -> ()) in
@@ -473,6 +480,17 @@ let handle (line : string) : string =
                    apply_send (Register h);
                    (* on a closed table send_message returns Err at once: nothing is blocked, no future exists *)
                    if reg then begin sending := Some (h, c, i, g, 0, false); incr wired_frames end else begin sending := None; errs := g :: !errs end
+          | "RN" -> (* n requests sent one after the other, each completely written *)
+                    finish (); let k = next_int t in let h0 = next_n t in
+                    for j = 0 to k - 1 do
+                      let h = N.add h0 (N.of_nat (nat_of_int j)) in
+                      let c = curc () in
+                      let i = int_of_nat (cst c).nw in let reg = not (cst c).closed in
+                      let g = !nsends in
+                      sends := (g, (c, i)) :: !sends; incr nsends;
+                      apply_send (Register h);
+                      if reg then begin sending := Some (h, c, i, g, 0, false); incr wired_frames; finish () end else begin sending := None; errs := g :: !errs end
+                    done
           | "RX" -> (* a request that cannot be encoded: registered (if the table is open), then send_message returns Err *)
                     finish (); let h = next_n t in
                     let c = curc () in
@@ -520,6 +538,13 @@ let handle (line : string) : string =
           | "PG" -> let h = next_n t in let _ = next t in let _ = next t in apply_peer !sel (Peer h)
           | "PT" -> let _ = next t in let _ = next t in ()
           | "B" -> let _ = next t in apply_peer !sel PeerBad
+          | "H" -> held := Some (ref [])
+          | "U" -> (match !held with
+                    | Some l -> held := None;
+                                (* all of it is in the stream before the reader runs *)
+                                List.iter (fun (c, e) -> ms := mstep !ms (MPeer (nat_of_int c, e))) (List.rev !l);
+                                List.iter (fun (c, _) -> drain c) (List.rev !l)
+                    | None -> ())
           | s -> raise (Parse ("client event " ^ s)));
          observe ev
        done;
@@ -558,6 +583,26 @@ let handle (line : string) : string =
         | Err -> Buffer.add_string b "ERR"
         | Panic -> Buffer.add_string b "PANIC"
         | OutOfFuel -> Buffer.add_string b "OUTOFFUEL")
+   | "XM" ->
+       (* frames back to back in one reader, each decoded from where it starts: the observation is that of the last
+          (or of the first one that is refused) *)
+       let ds = get_dict (next t) in
+       let n = next_int t in
+       let res = ref None in
+       (try
+         for _ = 1 to n do
+           let bs = next_bytes t in
+           let r = dec_msg (nat_of_int !lim) (dict_fn ds) bs in
+           res := Some (r, bs);
+           (match r with Ok _ -> () | _ -> raise Exit)
+         done
+       with Exit -> ());
+       (match !res with
+        | Some (Ok m, bs) -> Buffer.add_string b "OK "; pr_msg b m; pr_enc b m; pr_oracle b ds m (Some bs)
+        | Some (Err, _) -> Buffer.add_string b "ERR"
+        | Some (Panic, _) -> Buffer.add_string b "PANIC"
+        | Some (OutOfFuel, _) -> Buffer.add_string b "OUTOFFUEL"
+        | None -> Buffer.add_string b "ERR")
    | "XO" ->
        let ds = get_dict (next t) in
        let _ = next_int t in
